@@ -364,6 +364,12 @@ def check(ctx):
             if tr.kind == "LOSS":
                 hazards.append((f, "prefired/%s" % rg, "errback() of a request taken from %s without testing .called: %s stores an already "
                                 "fired Deferred there (%s), AlreadyCalledError" % (rg, tr0.label(), where(st0))))
+        seen_ul = set()
+        for tr, e, loc, tr2, e2 in hd.unstarted_loops():
+            if tr2.kind == "LOSS" and (e.func, loc) not in seen_ul:
+                seen_ul.add((e.func, loc))
+                hazards.append((e2, "loop-created-not-started/%s" % ".".join(loc), "%s stores the periodic call in %s without starting it (%s); connectionLost "
+                                "stops a loop that is not running (LoopingCall.stop() asserts)" % (tr.label(), ".".join(loc), where(e))))
         for tr, e, loc, tr2, e2 in hd.cancelled_kept():
             hazards.append((e2, "cancelled-handle-kept/%s" % ".".join(loc), "%s cancels the handle in %s and leaves it stored (%s); connectionLost "
                             "cancels it again (AlreadyCancelled)" % (tr.label(), ".".join(loc), where(e))))
